@@ -206,7 +206,23 @@ def one_config(ctx, desc):
         r = {"error": None, "I": I2, "alignment": al, "tuples": tuples, "slots_ok": all(len(ua.n_tuple) == I2.n for ua in al.unitary_alignments),
              "disorder": al.disorder, "mode": "chance-" + mode}
         case = {"units": [[(u.segment.start, u.segment.end, u.annotation) for u in us] for _, us in I2.ann], "spec": spec}
-        check_items[mode].append((case, r))
+        # "the same kind of alignment" in fast mode is decided by the window size measured on the INPUT: none (np.inf) = the exact route, so the
+        # chance alignments must be optimal; a finite one = the windowed algorithm with THAT size on the sample (deterministic: recomputed here)
+        kind = mode
+        if mode == "fast":
+            w_in = cont.best_window_size
+            if w_in == np.inf:
+                kind = "exact"
+            else:
+                try:
+                    again = ac.run_forked(120, lambda c2=c2: float(c2.get_fast_alignment(dissim, w_in).disorder))
+                    rep.count("chance_alignments_recomputed_with_the_input_window")
+                    if not close(al.disorder, again, TAU2):
+                        bad.append(("chance-not-same-mode", "fast mode measured window size %s on the input, but a chance alignment has disorder %r where the "
+                                    "windowed algorithm with that size gives %r on its sample" % (w_in, float(al.disorder), again)))
+                except (Exception, ac.Watchdog) as e:
+                    bad.append(("chance-recompute-raises", repr(e)))
+        check_items[kind].append((case, r))
     nontriv = (p is not None and len(chance) > n_samples) or gt is not None
     rep.case(sample={k: desc[k] for k in ("mode", "sampler", "precision", "n_samples", "ground_truth")} | {"chance_alignments": len(chance), "gamma": float(res.gamma)},
              nontrivial_key=repr(desc) if nontriv else None)
@@ -267,7 +283,7 @@ def run(rep, tier, seed, pa):
             spec = spec[:4] + ("abs",) + spec[5:]
         mode = rng.choice(["exact", "exact", "fast", "soft"])
         sname = rng.choice(["stat", "shuffle-int", "shuffle-float"])
-        windowed = ri % 20 == 7
+        windowed = ri % 15 == 7
         if windowed:
             # fast mode only takes its windowed route on a continuum that is large enough (4+ annotators x 10+ units); below, it is the exact route
             n = rng.choice([5, 5, 4])
@@ -286,7 +302,7 @@ def run(rep, tier, seed, pa):
         desc = {"units": units, "dissim": spec, "mode": mode, "sampler": sname, "precision": prec, "n_samples": n_samples,
                 "ground_truth": gt, "numpy_seed": npseed}
         if windowed:
-            desc.update(precision=None, n_samples=min(n_samples, 3))
+            desc.update(precision=None, n_samples=3)
             rep.count("fast_mode_large_enough_to_be_windowed")
         if gt is not None and ri % 2 == 0:
             desc["sampler_preinitialised"] = True
